@@ -1,5 +1,4 @@
 SPECIFICATION Spec
-CONSTANT Defs <- MCDefs
 CONSTANT ZeroLenIsError = FALSE
 CHECK_DEADLOCK FALSE
 INVARIANT TypeOK
